@@ -4,3 +4,8 @@
 mod c12 {
     include!(concat!(env!("IPA_VERIF_DIR"), "/c12.rs"));
 }
+
+#[cfg(all(not(feature = "shuttle"), feature = "descriptive-gate"))]
+mod c12n {
+    include!(concat!(env!("IPA_VERIF_DIR"), "/c12n.rs"));
+}
